@@ -4,6 +4,8 @@ from symx.core import Ctx, SymInt, SymBytes, SymBool, Flags, T, B, PathAbort, mo
 from symx import loader
 
 PID = "C15"
+TECHNIQUE = 'symbolic execution of the real codecs on z3 integers/byte vectors; z3 (LIA) decides width, endianness, inversion and the error condition for symbolic n and maxval'
+LEVEL_NOTE = "models of '%0Nx', hexlify/unhexlify, int(.,16), int.bit_length; n >= 0"
 EXPLANATION = (
     "Bounded symbolic execution of the repository's own util.size_bits/size_bytes/number_to_bytes/bytes_to_number, "
     "IntegerGroup.scalar_to_bytes/bytes_to_scalar/_element_to_bytes/bytes_to_element and ed25519_basic."
